@@ -316,7 +316,7 @@ def prepare_ws(root, name, harness_files, config, for_replay=False, extra_text=N
 def _limits(mem_gb):
     def f():
         os.setsid()
-        lim = max(16, 2 * mem_gb) * 1024 ** 3   # @mem is the scheduling weight (expected RSS); the hard cap is twice that
+        lim = max(24, 3 * mem_gb) * 1024 ** 3   # @mem is the scheduling weight (expected RSS); the hard cap is three times that, at least 24 GB
         resource.setrlimit(resource.RLIMIT_AS, (lim, lim))
     return f
 
@@ -452,6 +452,9 @@ def classify(h, res, jpath, logtext, rc, timed_out):
     res.verification_time = r.get("duration_ms", 0) / 1000.0
     checks = r.get("checks", [])
     res.total = len(checks)
+    if re.search(r"Solver ran out of memory|std::bad_alloc", logtext):
+        res.reason = "CBMC out of memory (address-space cap %d GB)" % max(24, 3 * h.mem)
+        return
     if not checks:
         if re.search(r"out of memory|std::bad_alloc|Status: ERROR", logtext, re.I):
             res.reason = "CBMC out of memory / error"
@@ -705,6 +708,31 @@ def cmd_check(args):
         t.start()
     for t in bt:
         t.join()
+    # a harness file that no longer compiles must not take the other files of its group down:
+    # rebuild failed multi-file groups one file at a time
+    regrouped = []
+    extra_idx = len(glist)
+    for g in glist:
+        files = sorted({h.file for h in g.harnesses})
+        if g.build_ok or len(files) <= 1:
+            regrouped.append(g)
+            continue
+        log("[kv] group build failed; retrying its %d harness files separately" % len(files))
+        subs = []
+        for f in files:
+            sg = Group(g.key + "|" + f, g.config)
+            sg.harnesses = [h for h in g.harnesses if h.file == f]
+            subs.append(sg)
+        ts = [threading.Thread(target=build_group, args=(sg, root, extra_idx + i)) for i, sg in enumerate(subs)]
+        extra_idx += len(subs)
+        for t in ts:
+            t.start()
+        for t in ts:
+            t.join()
+        if g.t0:
+            shutil.rmtree(g.t0, ignore_errors=True)
+        regrouped += subs
+    glist = regrouped
     results = {}
     jobs = []
     for g in glist:
